@@ -100,7 +100,9 @@ var profFormat = &Profile{
 }
 
 var profRefCount = &Profile{
-	Name: "C15-refcount", MinOps: 3, MaxOps: 45, NColls: 2, MemPct: 15, Snaps: true, ReopenNoDrop: true, EndOnly: 60,
+	Name: "C15-refcount", MinOps: 3, MaxOps: 45, NColls: 2, MemPct: 15, Snaps: true, ReopenNoDrop: true, EndOnly: 60, Nested: true,
+	// (no Get inside visitors either: Get keeps its item referenced by design)
+	NestedKinds: []string{OpGetItem, OpGetItem, OpMin, OpMax, OpExist, OpVisit, OpSet, OpDel, OpEvict, OpEvict, OpSnap, OpSnapClose, OpFlush, OpSetColl, OpRmColl},
 	Kinds: []wk{{OpSet, 28}, {OpSetR, 3}, {OpDel, 10}, {OpGetItem, 6}, {OpExist, 2}, {OpMin, 3}, {OpMax, 3}, {OpVisit, 14}, {OpLen, 2}, {OpBlock, 2}, {OpRandom, 2},
 		{OpEvict, 8}, {OpFlush, 13}, {OpReopen, 7}, {OpSnap, 6}, {OpSnapClose, 5}, {OpSetColl, 3}, {OpClose, 1}, {OpBadSet, 1}, {OpRmColl, 2}},
 }
@@ -111,7 +113,7 @@ var profIter = &Profile{
 }
 
 var profLazy = &Profile{
-	Name: "C19-lazy", MinOps: 6, MaxOps: 60, NColls: 2, BigVals: true, EndOnly: 80,
+	Name: "C19-lazy", MinOps: 6, MaxOps: 60, NColls: 2, BigVals: true, EndOnly: 80, Cmps: true,
 	Kinds: []wk{{OpSet, 34}, {OpSetR, 3}, {OpDel, 8}, {OpFlush, 10}, {OpEvict, 8}, {OpReopen, 8}, {OpGetItem, 8}, {OpMin, 3}, {OpMax, 3}, {OpVisit, 8},
 		{OpExist, 4}, {OpLen, 2}, {OpGet, 3}, {OpTotals, 1}},
 }
